@@ -163,7 +163,10 @@ C14(op, A, B, mem) ==
   ELSE IF n = "collapse_unary_chains" THEN
     F("C14.col.no_unary", \A x \in CNodes(B) : Cardinality(Kids(B, x)) # 1) \cup
     F("C14.col.labels_joined", ProjLW(B) = ProjLW(Collapse(A)))
-  ELSE IF n = "uncollapse_unary_chains" /\ mem.precollapse.n > 0 THEN
+  \* the property is stated for labels without '+': after an earlier collapse the labels contain '+' and
+  \* uncollapsing splits those as well (found by TLC -simulate: add_topnode; collapse; collapse; uncollapse)
+  ELSE IF n = "uncollapse_unary_chains" /\ mem.precollapse.n > 0
+          /\ \A x \in mem.precollapse.nodes : Len(SplitPlus(x.a.lab)) = 1 THEN
     F("C14.uncol.roundtrip", ProjLW(B) = ProjLW(mem.precollapse))
   ELSE {}
 
